@@ -11,7 +11,7 @@ use passkey_types::webauthn::{
     AuthenticationExtensionsPrfValues, AuthenticatorSelectionCriteria, CreatedPublicKeyCredential,
     CredentialCreationOptions, CredentialRequestOptions, PublicKeyCredentialCreationOptions, PublicKeyCredentialParameters,
     PublicKeyCredentialRequestOptions, PublicKeyCredentialRpEntity, PublicKeyCredentialType, PublicKeyCredentialUserEntity,
-    ResidentKeyRequirement, UserVerificationRequirement,
+    ResidentKeyRequirement, UserVerificationRequirement, AttestationConveyancePreference, AttestationStatementFormatIdentifiers,
 };
 use passkey_types::Bytes;
 use rand::{Rng, RngCore};
@@ -29,6 +29,10 @@ pub fn origin_url(name: &str) -> &'static str {
         "o.r2" => "https://login.other-site.org",
         "o.local" => "http://localhost:8080",
         "o.ip" => "https://192.168.7.7",
+        // an internationalised host, given in punycode and as typed (the URL parser turns both into punycode; the
+        // origin a relying party sees is the ASCII serialisation)
+        "o.idn" => "https://xn--bcher-kva.example",
+        "o.idnu" => "https://b\u{fc}cher.example",
         // Android application origins: the name stands for the asset-link host (see `origin_of`)
         "o.and.r1" => "https://example.com",
         "o.and.r1w" => "https://www.example.com",
@@ -313,8 +317,15 @@ fn register(run: &mut Run, req: &Value) -> Value {
                 None
             },
             hints: None,
-            attestation: Default::default(),
-            attestation_formats: None,
+            // the attestation conveyance preference and the other hints of a request change nothing about the outcome
+            attestation: match req["att"].as_str().unwrap_or("absent") {
+                "indirect" => AttestationConveyancePreference::Indirect,
+                "direct" => AttestationConveyancePreference::Direct,
+                "enterprise" => AttestationConveyancePreference::Enterprise,
+                "none" => AttestationConveyancePreference::None,
+                _ => Default::default(),
+            },
+            attestation_formats: if req["att"].as_str().unwrap_or("absent") == "absent" { None } else { Some(vec![AttestationStatementFormatIdentifiers::Packed, AttestationStatementFormatIdentifiers::None]) },
             extensions: ext,
         },
     };
@@ -455,8 +466,15 @@ fn authenticate(run: &mut Run, req: &Value) -> Value {
             allow_credentials: allow,
             user_verification: uv_req(req["uvreq"].as_str().unwrap()),
             hints: None,
-            attestation: Default::default(),
-            attestation_formats: None,
+            // the attestation conveyance preference and the other hints of a request change nothing about the outcome
+            attestation: match req["att"].as_str().unwrap_or("absent") {
+                "indirect" => AttestationConveyancePreference::Indirect,
+                "direct" => AttestationConveyancePreference::Direct,
+                "enterprise" => AttestationConveyancePreference::Enterprise,
+                "none" => AttestationConveyancePreference::None,
+                _ => Default::default(),
+            },
+            attestation_formats: if req["att"].as_str().unwrap_or("absent") == "absent" { None } else { Some(vec![AttestationStatementFormatIdentifiers::Packed, AttestationStatementFormatIdentifiers::None]) },
             extensions: ext,
         },
     };
